@@ -33,7 +33,85 @@ def insertSorted (p : Nat × Nat) : List (Nat × Nat) → List (Nat × Nat)
 
 def ratTripleStr (e : Nat × Nat × Rat) : String := s!"{e.1}:{e.2.1}:{QI.ratStr e.2.2}"
 
+
+/-- single-qubit Pauli `I,X,Y,Z` (index 0..3), entry `(r,c)` -/
+def pauli1 (k r c : Nat) : GInt :=
+  match k, r, c with
+  | 0, 0, 0 => 1 | 0, 1, 1 => 1
+  | 1, 0, 1 => 1 | 1, 1, 0 => 1
+  | 2, 0, 1 => ⟨0, -1⟩ | 2, 1, 0 => ⟨0, 1⟩
+  | 3, 0, 0 => 1 | 3, 1, 1 => ⟨-1, 0⟩
+  | _, _, _ => 0
+
+/-- `np.kron(P_a, P_b)`, the `j`-th element (`j = 4a+b`) of `pauli2_list` before dropping `II` -/
+def pauli2 (j r c : Nat) : GInt := pauli1 (j / 4) (r / 2) (c / 2) * pauli1 (j % 4) (r % 2) (c % 2)
+
+def handleUsers (args : List String) : Option String :=
+  match args with
+  | ["pureb", dimA, dimB, len, table, v] => some <| Id.run do
+      let some dimA := dimA.toNat? | return "bad-op"
+      let some dimB := dimB.toNat? | return "bad-op"
+      let some len := len.toNat? | return "bad-op"
+      let some tabs := (table.splitOn "|").mapM parseTriples? | return "bad-op"
+      let some v := parseGIntArray? v | return "bad-op"
+      if tabs.length ≠ dimB * dimB || v.size ≠ dimA * len then return "bad-op"
+      if tabs.any (fun t => t.any fun e => e.1 ≥ len || e.2.1 ≥ len) then return "bad-op"
+      let tabA := tabs.toArray
+      let f := purebReduce dimB len (fun q => tabA.getD q []) (fun i => v.getD i 0)
+      let N := dimA * dimB
+      return gintListStr ((List.range N).flatMap fun x => (List.range N).map fun y => f x y)
+  | ["tensor", n, d] => some <| Id.run do
+      let some n := n.toNat? | return "bad-op"
+      let some d := d.toNat? | return "bad-op"
+      if d < 2 || n < 1 then return "error:assert"
+      let L := (klist d n).length
+      let tabA := ((List.range (d * d)).map fun q => bijTable n d (q / d) (q % d)).toArray
+      let T := tensorOfTable d (fun q => tabA.getD q [])
+      return ";".intercalate ((List.range d).flatMap fun r => (List.range d).flatMap fun s =>
+        (List.range L).flatMap fun i => (List.range L).map fun j => QI.ratStr (T r s i j))
+  | ["preb", dimA, dimB, len, g, b] => some <| Id.run do
+      -- one operator G (dimA*dimB square) and the tensor B (dimB,dimB,L,L)
+      let some dimA := dimA.toNat? | return "bad-op"
+      let some dimB := dimB.toNat? | return "bad-op"
+      let some len := len.toNat? | return "bad-op"
+      let some g := parseGIntArray? g | return "bad-op"
+      let some b := parseGIntArray? b | return "bad-op"
+      let dab := dimA * dimB
+      if g.size ≠ dab * dab || b.size ≠ dimB * dimB * len * len then return "bad-op"
+      let G := matOfList dab g
+      let B : Nat → Nat → Nat → Nat → GInt := fun r s i j => b.getD (((r * dimB + s) * len + i) * len + j) 0
+      let N := dimA * len
+      let f := preimageBoson dimB len G B
+      return gintListStr ((List.range N).flatMap fun x => (List.range N).map fun y => f x y)
+  | ["pres", dimA, dimB, k, g] => some <| Id.run do
+      let some dimA := dimA.toNat? | return "bad-op"
+      let some dimB := dimB.toNat? | return "bad-op"
+      let some k := k.toNat? | return "bad-op"
+      let some g := parseGIntArray? g | return "bad-op"
+      let dab := dimA * dimB
+      if g.size ≠ dab * dab then return "bad-op"
+      let N := dimA * dimB ^ k
+      let f := preimageSymSum dimA dimB k (matOfList dab g)
+      return gintListStr ((List.range N).flatMap fun x => (List.range N).map fun y => f x y)
+  | ["rdm2", n, x] => some <| Id.run do
+      -- sdp_2local_rdm_solve: real parts of Tr(P_j · rdm_{ind0,ind0+1}) for the 15 two-qubit Paulis, every ind0
+      let some n := n.toNat? | return "bad-op"
+      let some x := parseGIntArray? x | return "bad-op"
+      if n < 2 || x.size ≠ 2 ^ n * 2 ^ n then return "bad-op"
+      let X := matOfList (2 ^ n) x
+      let vals := (List.range (n - 1)).flatMap fun ind0 =>
+        let rdm := rdmTwoStep (2 ^ ind0) (2 ^ (n - 2 - ind0)) X
+        let R : Array GInt := ((List.range 16).map fun q => rdm (q / 4) (q % 4)).toArray
+        (List.range 15).map fun jm1 =>
+          let j := jm1 + 1
+          ((List.range 16).foldl (fun (acc : GInt) q => acc + pauli2 j (q % 4) (q / 4) * R.getD q 0) 0).re
+      return intListStr vals
+  | _ => none
+
 def handle (args : List String) : String :=
+  match handleUsers args with
+  | some r => r
+  | none =>
   match args with
   | ["pt", dims, keep, entries] => Id.run do
       let some dims := parseNatList? dims | return "bad-op"
